@@ -21,7 +21,6 @@ import (
 // classifiers of known_findings.json (named predicates over the input)
 const (
 	clsFFFD = "c07.stringContainsUFFFD" // HasSurvivingFFFD(content)
-	clsBig  = "c07.numberBeyondFloat64" // HasBig(content)
 )
 
 // ccase is one content with its renderings (or, with Enc == "", a list of malformed texts).
@@ -56,8 +55,6 @@ func classifierOf(v *JV) string {
 	switch {
 	case v == nil:
 		return ""
-	case HasBig(v):
-		return clsBig
 	case HasSurvivingFFFD(v):
 		return clsFFFD
 	}
@@ -198,6 +195,10 @@ func judge(c *core.Ctx, cases []*ccase) {
 			judgeMalformed(c, cs, rs, func(j int) string { return readOf[rt{i, j}] })
 			continue
 		}
+		if HasBig(cs.v) {
+			judgeUnrepresentable(c, cs, rs, func(j int) string { return readOf[rt{i, j}] })
+			continue
+		}
 		cls := classifierOf(cs.v)
 		replay := cs
 		c.Count("stream:"+cs.Stream, 1)
@@ -260,9 +261,7 @@ func judge(c *core.Ctx, cases []*ccase) {
 		}
 		c.Eval(cs.Enc, nontrivial)
 		// (4) specification and model
-		if cls == clsBig {
-			// no J encoding; the reader tie below covers the model
-		} else if m := model[i]; strings.HasPrefix(m, "ok m ") {
+		if m := model[i]; strings.HasPrefix(m, "ok m ") {
 			parts := strings.Fields(m) // ok m X s Y
 			mh, sh := parts[2], parts[4]
 			goh := "!"
@@ -351,6 +350,71 @@ func judgeMalformed(c *core.Ctx, cs *ccase, rs []goResult, read func(int) string
 			checkRead(c, t, r, rr, one)
 		}
 	}
+}
+
+// judgeUnrepresentable: the content has a number beyond float64.  c14n limits numbers to 64
+// bits, so there is no canonical form for it: every rendering must be rejected (an error, not a
+// panic) and never be canonicalised as some other content (it used to be read as null).
+func judgeUnrepresentable(c *core.Ctx, cs *ccase, rs []goResult, read func(int) string) {
+	c.Count("stream:"+cs.Stream, 1)
+	c.Count("renderings", int64(len(rs)))
+	for j, r := range rs {
+		t := cs.Texts[j]
+		bad := true
+		switch {
+		case r.panic != "":
+			c.Fail("", fmt.Sprintf("c14n.CanonicalJSON panicked on %q (a number beyond float64): %s", short(t), r.panic), cs)
+		case r.err == "":
+			c.Fail("", fmt.Sprintf("input %q has a number beyond float64, which c14n cannot represent, but it is accepted and canonicalised as %q: read as different content instead of being rejected",
+				short(t), short(r.out)), cs)
+		default:
+			bad = false
+			c.Count("unrepresentable_rejected", 1)
+		}
+		if rr := read(j); rr != "" && !bad {
+			checkRead(c, t, r, rr, cs)
+		}
+	}
+	c.Eval(cs.Enc, true)
+}
+
+// withBig returns a copy of v in which one leaf (or, if there is none, the value itself) is
+// replaced by a number beyond float64.
+func withBig(v *JV, raw string, r *rand.Rand) *JV {
+	var leaves int
+	v.Walk(func(x *JV, _ bool, _ string) {
+		if x.K != Arr && x.K != Obj {
+			leaves++
+		}
+	})
+	if leaves == 0 {
+		return &JV{K: Arr, A: []*JV{v, {K: Big, Raw: raw}}}
+	}
+	pick, n := r.Intn(leaves), 0
+	var cp func(x *JV) *JV
+	cp = func(x *JV) *JV {
+		switch x.K {
+		case Arr:
+			y := &JV{K: Arr}
+			for _, e := range x.A {
+				y.A = append(y.A, cp(e))
+			}
+			return y
+		case Obj:
+			y := &JV{K: Obj}
+			for _, m := range x.M {
+				y.M = append(y.M, Member{m.K, cp(m.V)})
+			}
+			return y
+		}
+		n++
+		if n-1 == pick {
+			return &JV{K: Big, Raw: raw}
+		}
+		c := *x
+		return &c
+	}
+	return cp(v)
 }
 
 // renderings of one content
@@ -658,13 +722,23 @@ func Run(c *core.Ctx) int {
 		}
 		add(mk("u+fffd", v, renderAll(v, r, 3)))
 	}
-	// (H) numbers beyond float64 (known finding: they become null)
-	for _, raw := range []string{"1e999", "-1e999", "1E309", "2e308", "-1.8e308", "1" + strings.Repeat("0", 400), "1e400", "123456789e301"} {
-		b := &JV{K: Big, Raw: raw}
-		for _, v := range []*JV{b, {K: Arr, A: []*JV{b}}, {K: Obj, M: []Member{{"a", b}, {"b", &JV{K: Int, I: 1}}}}} {
-			texts := renderAll(v, r, 2)
-			add(&ccase{Stream: "beyond-float64", Enc: "big:" + raw + ":" + strconv.Itoa(int(v.K)), Texts: texts, v: v})
+	// (H) numbers beyond float64: not representable, every text that has one must be rejected
+	bigs := []string{"1e999", "-1e999", "1E309", "2e308", "-1.8e308", "1" + strings.Repeat("0", 400), "1e400", "123456789e301", "1.7976931348623159e308", "-0.1e310"}
+	for _, raw := range bigs {
+		if f, err := strconv.ParseFloat(raw, 64); err == nil || !math.IsInf(f, 0) {
+			panic("harness: " + raw + " is not beyond float64")
 		}
+		b := &JV{K: Big, Raw: raw}
+		for _, v := range []*JV{b, {K: Arr, A: []*JV{b}}, {K: Obj, M: []Member{{"a", b}, {"b", &JV{K: Int, I: 1}}}},
+			{K: Arr, A: []*JV{{K: Null}, b, {K: Null}}}, {K: Obj, M: []Member{{"a", &JV{K: Null}}, {"z", &JV{K: Arr, A: []*JV{{K: Obj, M: []Member{{"n", b}}}}}}}}} {
+			texts := renderAll(v, r, 2)
+			add(&ccase{Stream: "beyond-float64", Enc: "big:" + raw + ":" + v.EncString(), Texts: texts, v: v})
+		}
+	}
+	for i := 0; i < c.Pick(300, 5000); i++ {
+		raw := bigs[r.Intn(len(bigs))]
+		v := withBig(g.value(r.Intn(5)), raw, r)
+		add(&ccase{Stream: "beyond-float64", Enc: "big:" + raw + ":" + v.EncString(), Texts: renderAll(v, r, 2), v: v})
 	}
 	// (I) integer literals beyond int64 are read as float64 (outside the quantifier "integers across int64"; informational)
 	var beyond []string
@@ -757,6 +831,6 @@ func Run(c *core.Ctx) int {
 	}
 	judge(c, []*ccase{mal})
 
-	return c.Finish("contents generated type-directed (depth ≤ 6, null patterns, key classes, int64 boundaries, float64 of every kind, every scalar value as a one-character string), each rendered in 2–6 styles (member order, whitespace, escape style, number spelling); oracle on the Go output: all renderings agree, output parses with an independent strict canonical-form parser to the content minus null members, is valid UTF-8 JSON, canonicalises to itself, equals the README text computed by the Lean specification; then compared with the Lean model of the code (canon, and the token-level reader on json.Decoder's tokens); malformed inputs must be rejected; non-trivial = canonicalisation changed the text of some rendering; distinct by content",
+	return c.Finish("contents generated type-directed (depth ≤ 6, null patterns, key classes, int64 boundaries, float64 of every kind, every scalar value as a one-character string), each rendered in 2–6 styles (member order, whitespace, escape style, number spelling); a text with a number beyond float64 must be rejected; oracle on the Go output: all renderings agree, output parses with an independent strict canonical-form parser to the content minus null members, is valid UTF-8 JSON, canonicalises to itself, equals the README text computed by the Lean specification; then compared with the Lean model of the code (canon, and the token-level reader on json.Decoder's tokens); malformed inputs must be rejected; non-trivial = canonicalisation changed the text of some rendering; distinct by content",
 		map[string]any{"float_digits": "the harness sends the digits/exponent strconv.FormatFloat(f,'E',-1,64) produces for the float64 of each non-integer number (strconv trusted); the strict parser re-reads the output digits with strconv.ParseFloat and checks they are the shortest digits of that float64"})
 }
